@@ -117,7 +117,13 @@ func c14RenderWith(r *fw.Rec, ws *writerSpec, w gozxing.Writer, content string, 
 	if margin >= 0 {
 		hints = map[gozxing.EncodeHintType]interface{}{gozxing.EncodeHintType_MARGIN: margin}
 		if r.Rng.Intn(4) == 0 {
-			hints[gozxing.EncodeHintType_MARGIN] = fmt.Sprint(margin) // string form
+			// string form: a decimal numeral as Integer.parseInt / strconv.Atoi read it - leading
+			// zeros and a plus sign do not change the number
+			form := []string{"%d", "%d", "%02d", "%03d", "+%d", "0%d"}[r.Rng.Intn(6)]
+			hints[gozxing.EncodeHintType_MARGIN] = fmt.Sprintf(form, margin)
+			if form != "%d" {
+				r.Tally("renderings_with_margin_numeral_with_leading_zero_or_sign")
+			}
 		}
 	}
 	if hints == nil && r.Rng.Intn(3) == 0 {
@@ -482,6 +488,7 @@ func c14(c *fw.Ctx) {
 	c.Floor("qr_renderings_with_level_hint_next_to_margin", 1000)
 	c.Floor("renderings_by_zero_value_writers", 500)
 	c.Floor("renderings_with_a_hint_map_without_margin", 5000)
+	c.Floor("renderings_with_margin_numeral_with_leading_zero_or_sign", 2000)
 	c.Floor("qr_renderings_with_forced_mask_or_version", 1000)
 	c.Floor("renderings_of_rectangular_2d_symbols", 50)
 	c.Floor("renderings_with_modules_of_33_pixels_or_more", 150)
